@@ -34,6 +34,20 @@ if TYPE_CHECKING:
     from .model import FuncInfo, Repo
 
 MAX_DEPTH = 4
+_KNOWN: set[str] | None = None
+
+
+def known_functions() -> set[str]:
+    """Qualified names of the functions of the pinned tree (xsa/known_functions.txt, regenerated when the rules are re-confirmed).
+    A function that is not in the list did not exist when the rules were written - typically the product of an "extract method"
+    refactoring - and is analysed inlined into its same-class / same-module callers, like an underscore-private helper."""
+    global _KNOWN
+    if _KNOWN is None:
+        from pathlib import Path
+
+        p = Path(__file__).with_name("known_functions.txt")
+        _KNOWN = set(p.read_text().split()) if p.exists() else set()
+    return _KNOWN
 SCOPES = (ast.FunctionDef, ast.AsyncFunctionDef, ast.Lambda, ast.ClassDef)
 
 
@@ -122,8 +136,9 @@ class Inliner:
     def _helper_for(self, fi: "FuncInfo", call: ast.Call) -> "FuncInfo | None":
         f = call.func
         name = f.attr if isinstance(f, ast.Attribute) else (f.id if isinstance(f, ast.Name) else "")
-        if not name.startswith("_") or name.startswith("__"):
+        if not name or name.startswith("__"):
             return None
+        private = name.startswith("_")
         if any(isinstance(a, ast.Starred) for a in call.args) or any(k.arg is None for k in call.keywords):
             return None
         h: FuncInfo | None = None
@@ -148,6 +163,8 @@ class Inliner:
             h = self.repo.functions.get(f"{fi.module.name}:{name}")
         if h is None or h.qual == fi.qual or h.qual in self.stack:
             return None
+        if not private and h.qual in known_functions():
+            return None  # a function of the pinned tree: part of the design the rules were confirmed against, analysed in place
         if isinstance(h.node, ast.AsyncFunctionDef) or h.is_property:
             return None
         if any(d not in ("staticmethod", "classmethod") for d in h.decorators):
@@ -472,14 +489,242 @@ class _IfExpToIf(ast.NodeTransformer):
         return node
 
 
+class _MatchToIf(ast.NodeTransformer):
+    """``match x: case A: ... case B | C: ... case _: ...`` over value / singleton / class patterns becomes the equivalent
+    if / elif / else chain (other pattern kinds are left alone), so that both spellings of a dispatch are one to every rule."""
+
+    def __init__(self) -> None:
+        self.count = 0
+
+    def _test(self, subj: ast.expr, pat: ast.pattern) -> ast.expr | None | bool:
+        """Test expression for a pattern; True = always matches (wildcard); None = unsupported."""
+        c = lambda: copy.deepcopy(subj)  # noqa: E731
+        if isinstance(pat, ast.MatchValue):
+            return ast.Compare(left=c(), ops=[ast.Eq()], comparators=[pat.value])
+        if isinstance(pat, ast.MatchSingleton):
+            return ast.Compare(left=c(), ops=[ast.Is()], comparators=[ast.Constant(value=pat.value)])
+        if isinstance(pat, ast.MatchAs) and pat.pattern is None and pat.name is None:
+            return True
+        if isinstance(pat, ast.MatchClass) and not pat.patterns and not pat.kwd_patterns:
+            return ast.Call(func=ast.Name(id="isinstance", ctx=ast.Load()), args=[c(), pat.cls], keywords=[])
+        if isinstance(pat, ast.MatchOr):
+            subs = [self._test(subj, p) for p in pat.patterns]
+            if any(x is None or x is True for x in subs):
+                return None
+            if all(isinstance(x, ast.Compare) and isinstance(x.ops[0], ast.Eq) for x in subs):
+                return ast.Compare(left=c(), ops=[ast.In()], comparators=[ast.Tuple(elts=[x.comparators[0] for x in subs], ctx=ast.Load())])
+            return ast.BoolOp(op=ast.Or(), values=subs)
+        return None
+
+    def visit_Match(self, node: ast.Match):
+        self.generic_visit(node)
+        subj = node.subject
+        pre: list[ast.stmt] = []
+        if not isinstance(subj, (ast.Name, ast.Attribute, ast.Constant)):
+            self.count += 1
+            tmp = ast.Name(id=f"__match_{self.count}", ctx=ast.Store())
+            pre.append(ast.copy_location(ast.Assign(targets=[tmp], value=subj), node))
+            subj = ast.Name(id=tmp.id, ctx=ast.Load())
+        arms: list[tuple[ast.expr | bool, list[ast.stmt]]] = []
+        for case in node.cases:
+            pat = case.pattern
+            bind: list[ast.stmt] = []
+            if isinstance(pat, ast.MatchAs) and pat.pattern is None and pat.name is not None:
+                bind = [ast.Assign(targets=[ast.Name(id=pat.name, ctx=ast.Store())], value=copy.deepcopy(subj))]
+                t: ast.expr | bool | None = True
+            else:
+                t = self._test(subj, pat)
+            if t is None:
+                return node if not pre else node  # unsupported pattern: keep the match statement
+            if case.guard is not None:
+                if bind:
+                    return node
+                t = case.guard if t is True else ast.BoolOp(op=ast.And(), values=[t, case.guard])
+            arms.append((t, bind + case.body))
+        self.count += 1
+        orelse: list[ast.stmt] = []
+        for t, body in reversed(arms):
+            if t is True:
+                orelse = body
+            else:
+                new = ast.If(test=t, body=body, orelse=orelse)
+                new._xsa_match = True  # type: ignore[attr-defined]
+                ast.copy_location(new, node)
+                orelse = [new]
+        out = pre + (orelse or [ast.copy_location(ast.Pass(), node)])
+        return out if len(out) > 1 else out[0]
+
+
+class _HoistWalrus(ast.NodeTransformer):
+    """``if (x := e) ...:`` becomes ``x = e`` followed by ``if x ...:`` when the named expression is the first thing the test
+    evaluates (so the hoist preserves evaluation order)."""
+
+    def __init__(self) -> None:
+        self.count = 0
+
+    @staticmethod
+    def _first(e: ast.expr) -> ast.NamedExpr | None:
+        while True:
+            if isinstance(e, ast.NamedExpr):
+                return e
+            if isinstance(e, ast.UnaryOp):
+                e = e.operand
+            elif isinstance(e, ast.BoolOp):
+                e = e.values[0]
+            elif isinstance(e, ast.Compare):
+                e = e.left
+            elif isinstance(e, ast.Call) and isinstance(e.func, ast.Attribute):
+                e = e.func.value
+            elif isinstance(e, (ast.Attribute, ast.Subscript)):
+                e = e.value
+            else:
+                return None
+
+    def visit_If(self, node: ast.If):
+        self.generic_visit(node)
+        w = self._first(node.test)
+        if w is None or not isinstance(w.target, ast.Name):
+            return node
+        self.count += 1
+        assign = ast.copy_location(ast.Assign(targets=[ast.Name(id=w.target.id, ctx=ast.Store())], value=w.value), node)
+
+        class R(ast.NodeTransformer):
+            def visit_NamedExpr(self, n):
+                return ast.copy_location(ast.Name(id=w.target.id, ctx=ast.Load()), n) if n is w else n
+
+        node.test = R().visit(node.test)
+        return [assign, node]
+
+    def _simple(self, node):
+        self.generic_visit(node)
+        v = getattr(node, "value", None)
+        if isinstance(v, ast.NamedExpr) and isinstance(v.target, ast.Name) and not (isinstance(node, ast.Assign) and any(isinstance(t, ast.Name) and t.id == v.target.id for t in node.targets)):
+            self.count += 1
+            assign = ast.copy_location(ast.Assign(targets=[ast.Name(id=v.target.id, ctx=ast.Store())], value=v.value), node)
+            node.value = ast.copy_location(ast.Name(id=v.target.id, ctx=ast.Load()), v)
+            return [assign, node]
+        return node
+
+    visit_Assign = _simple
+    visit_Return = _simple
+    visit_Expr = _simple
+
+    def visit_Lambda(self, node):
+        return node
+
+
+class _SplitTupleAssign(ast.NodeTransformer):
+    """``a, b = x, y`` becomes ``a = x`` then ``b = y`` when no target name occurs in the values (so it is not a swap)."""
+
+    def __init__(self) -> None:
+        self.count = 0
+
+    def visit_Assign(self, node: ast.Assign):
+        if len(node.targets) == 1 and isinstance(node.targets[0], ast.Tuple) and isinstance(node.value, ast.Tuple) and len(node.targets[0].elts) == len(node.value.elts) \
+                and all(isinstance(t, ast.Name) for t in node.targets[0].elts) and not any(isinstance(v, ast.Starred) for v in node.value.elts):
+            names = {t.id for t in node.targets[0].elts}
+            used = {x.id for v in node.value.elts for x in ast.walk(v) if isinstance(x, ast.Name)}
+            if not (names & used) and not any(isinstance(x, (ast.NamedExpr, ast.Yield, ast.Await)) for x in ast.walk(node.value)):
+                self.count += 1
+                return [ast.copy_location(ast.Assign(targets=[t], value=v), node) for t, v in zip(node.targets[0].elts, node.value.elts)]
+        return node
+
+    def visit_Lambda(self, node):
+        return node
+
+
+def inline_condition_temps(fn: ast.AST) -> int:
+    """``flag = a and not b`` directly followed (only unrelated simple assignments in between) by ``if flag:`` / ``if not flag:`` where the
+    flag is used nowhere else: the condition is put back into the test, so that a named condition and an inline one look alike."""
+    count = 0
+    uses: dict[str, int] = {}
+    stores_: dict[str, int] = {}
+    for n in ast.walk(fn):
+        if isinstance(n, ast.Name):
+            if isinstance(n.ctx, ast.Load):
+                uses[n.id] = uses.get(n.id, 0) + 1
+            else:
+                stores_[n.id] = stores_.get(n.id, 0) + 1
+
+    def cond_like(v: ast.expr) -> bool:
+        return isinstance(v, (ast.BoolOp, ast.Compare)) or (isinstance(v, ast.UnaryOp) and isinstance(v.op, ast.Not)) or (isinstance(v, ast.Call) and isinstance(v.func, ast.Name) and v.func.id in ("isinstance", "callable", "bool", "any", "all"))
+
+    def process(body: list[ast.stmt]) -> list[ast.stmt]:
+        nonlocal count
+        i = 0
+        while i < len(body):
+            st = body[i]
+            for field in ("body", "orelse", "finalbody"):
+                sub = getattr(st, field, None)
+                if isinstance(sub, list) and sub and isinstance(sub[0], ast.stmt) and not isinstance(st, (ast.FunctionDef, ast.AsyncFunctionDef, ast.ClassDef)):
+                    setattr(st, field, process(sub))
+            for h in getattr(st, "handlers", []) or []:
+                h.body = process(h.body)
+            if isinstance(st, ast.Assign) and len(st.targets) == 1 and isinstance(st.targets[0], ast.Name) and cond_like(st.value):
+                name = st.targets[0].id
+                if uses.get(name, 0) == 1 and stores_.get(name, 0) == 1:
+                    free = {x.id for x in ast.walk(st.value) if isinstance(x, ast.Name)}
+                    j = i + 1
+                    while j < len(body) and isinstance(body[j], (ast.Assign, ast.AnnAssign)) and not any(
+                            isinstance(x, ast.Name) and isinstance(x.ctx, ast.Store) and x.id in free | {name} for x in ast.walk(body[j])) and not any(
+                            isinstance(x, ast.Name) and x.id == name for x in ast.walk(body[j])):
+                        j += 1
+                    if j < len(body) and isinstance(body[j], ast.If):
+                        # the flag may be the whole test, negated, or an operand of an and / or chain of the test
+                        value = st.value
+                        hit = [False]
+
+                        class S(ast.NodeTransformer):
+                            def visit_Name(self, x: ast.Name):
+                                if x.id == name and isinstance(x.ctx, ast.Load):
+                                    hit[0] = True
+                                    return value
+                                return x
+
+                            def generic_visit(self, x):
+                                # only through boolean structure: BoolOp / not
+                                if isinstance(x, (ast.BoolOp,)) or (isinstance(x, ast.UnaryOp) and isinstance(x.op, ast.Not)):
+                                    return super().generic_visit(x)
+                                return x
+
+                        new_test = S().visit(body[j].test)
+                        if hit[0]:
+                            body[j].test = new_test
+                            del body[i]
+                            count += 1
+                            continue
+            i += 1
+        return body
+
+    fn.body = process(fn.body)
+    return count
+
+
+def _apply(transformer: ast.NodeTransformer, body: list[ast.stmt]) -> list[ast.stmt]:
+    out: list[ast.stmt] = []
+    for st in body:
+        r = transformer.visit(st)
+        if isinstance(r, list):
+            out.extend(r)
+        elif r is not None:
+            out.append(r)
+    return out
+
+
 def normalize_conditionals(repo: "Repo") -> int:
-    t = _IfExpToIf()
+    m, w, t, u = _MatchToIf(), _HoistWalrus(), _IfExpToIf(), _SplitTupleAssign()
+    extra = 0
     for fi in repo.functions.values():
-        before = t.count
-        fi.node.body = [x for st in fi.node.body for x in [t.visit(st)]]
-        if t.count != before:
+        before = (m.count, w.count, t.count, u.count)
+        fi.node.body = _apply(m, fi.node.body)
+        fi.node.body = _apply(w, fi.node.body)
+        fi.node.body = _apply(u, fi.node.body)
+        c = inline_condition_temps(fi.node)
+        fi.node.body = _apply(t, fi.node.body)
+        if (m.count, w.count, t.count, u.count) != before or c:
             ast.fix_missing_locations(fi.node)
-    return t.count
+        extra += c
+    return m.count + w.count + t.count + u.count + extra
 
 
 def inline_private_helpers(repo: "Repo") -> dict:
